@@ -105,3 +105,56 @@ func VerifC14cManyOpen(k, max int) {
 	cancel()
 	verifrt.Reach("done")
 }
+
+// VerifC14dChatty: a client that keeps the SSH connection busy - more
+// connection-wide keepalive requests and more requests on its session channel
+// than the library buffers (x/crypto/ssh: "The Request and NewChannel channels
+// must be serviced, or the connection will hang") - and then goes away, while
+// an ordinary connection is open or not: its slot is given back and the next
+// client is served.
+func VerifC14dChatty(others int) {
+	dlog.VerifInstall(source.Server)
+	config.Server.MaxConnections = 1 + others
+	config.Server.Schedule, config.Server.Continuous = nil, nil
+	config.Server.Permissions = config.Permissions{Default: []string{"^/.*$"}}
+	c14Authenticated = map[int]bool{}
+	s := &Server{catLimiter: make(chan struct{}, 2), tailLimiter: make(chan struct{}, 2), sshServerConfig: &gossh.ServerConfig{}}
+	ctx, cancel := context.WithCancel(context.Background())
+	l := &c14Listener{incoming: make(chan net.Conn)}
+	go s.listenerLoop(ctx, l)
+	mk := func(id, kind int) *c14Conn {
+		return &c14Conn{id: id, kind: kind, closed: make(chan struct{}), chans: make(chan gossh.NewChannel, c14ChanSize),
+			global: make(chan *gossh.Request, c14ChanSize), waitDone: make(chan struct{})}
+	}
+	var conns []*c14Conn
+	for i := 0; i < others; i++ {
+		conns = append(conns, mk(i, c14OneShell))
+	}
+	conns = append(conns, mk(others, c14Chatty))
+	for _, c := range conns {
+		l.incoming <- c
+		verifrt.Sleep(time.Second)
+		verifrt.Assert(c14Authenticated[c.id], "a connection was refused although fewer than MaxConnections are open")
+		c14Drive(c)
+		verifrt.Sleep(time.Second)
+	}
+	verifrt.Assert(s.stats.currentConnections == 1+others, "the reported number of open connections differs from the number actually open")
+	chatty := conns[others]
+	chatty.Close() // the client is gone (abrupt close)
+	verifrt.Sleep(5 * time.Second)
+	verifrt.Assert(s.stats.currentConnections == others, "a connection that sent many requests and ended did not give its slot back")
+	next := mk(others+1, c14OneShell)
+	l.incoming <- next
+	verifrt.Sleep(time.Second)
+	verifrt.Assert(c14Authenticated[next.id], "a connection is refused although fewer than MaxConnections are open")
+	c14Drive(next)
+	verifrt.Sleep(time.Second)
+	next.Close()
+	for i := 0; i < others; i++ {
+		conns[i].Close()
+	}
+	verifrt.Sleep(5 * time.Second)
+	verifrt.Assert(s.stats.currentConnections == 0, "slots are still taken after all connections ended")
+	cancel()
+	verifrt.Reach("done")
+}
